@@ -1,9 +1,58 @@
 package rules
 
-import "cvsslint/internal/report"
+import (
+	"context"
+	"os"
+	"os/exec"
+	"strings"
+	"time"
 
-// Thorough adds the thorough-tier extras (self-check against mutants,
-// cross-references). Filled in by selfcheck.go.
+	"cvsslint/internal/report"
+)
+
+// Thorough adds the thorough-tier extras: the self-check against mutants,
+// neutral refactorings and seeded changes, and an informational
+// cross-reference run of generic linters (their output decides nothing).
 func Thorough(ctx *report.Ctx, prop, repo, verif string) {
 	selfCheck(ctx, prop, repo, verif)
+	crossReference(ctx, repo)
+}
+
+func crossReference(ctx *report.Ctx, repo string) {
+	type res struct {
+		Tool   string   `json:"tool"`
+		Status string   `json:"status"`
+		Lines  int      `json:"lines"`
+		Head   []string `json:"head,omitempty"`
+	}
+	var out []res
+	env := append(os.Environ(), "GOFLAGS=-mod=mod", "GOPROXY=off", "GOSUMDB=off", "GOWORK=off", "GOTOOLCHAIN=local")
+	for _, t := range [][]string{{"go", "vet", "./..."}, {"staticcheck", "./..."}} {
+		c, cancel := context.WithTimeout(context.Background(), 120*time.Second)
+		cmd := exec.CommandContext(c, t[0], t[1:]...)
+		cmd.Dir = repo
+		cmd.Env = env
+		b, err := cmd.CombinedOutput()
+		cancel()
+		r := res{Tool: strings.Join(t, " "), Status: "no diagnostics"}
+		lines := []string{}
+		for _, l := range strings.Split(strings.TrimSpace(string(b)), "\n") {
+			if strings.TrimSpace(l) != "" {
+				lines = append(lines, l)
+			}
+		}
+		r.Lines = len(lines)
+		if len(lines) > 5 {
+			r.Head = lines[:5]
+		} else {
+			r.Head = lines
+		}
+		if err != nil && len(lines) == 0 {
+			r.Status = "not run: " + err.Error()
+		} else if len(lines) > 0 {
+			r.Status = "diagnostics (informational; no generic lint gives a verdict on this property)"
+		}
+		out = append(out, r)
+	}
+	ctx.Extra["cross_reference"] = out
 }
